@@ -165,7 +165,7 @@ func c07Eval(n *c07Node, now time.Time) *MetricTable {
 }
 
 func c07Dump(mt *MetricTable) c07Table {
-	out := c07Table{Max: mt.maxTableSize, Count: mt.count, Dropped: mt.numDropped, Failed: mt.failedHarvests,
+	out := c07Table{Max: mt.maxTableSize, Count: verifTableCount(mt), Dropped: mt.numDropped, Failed: mt.failedHarvests,
 		Entries: []c07Entry{}}
 	for name, s := range mt.metrics {
 		for scope, m := range s {
